@@ -7,9 +7,9 @@ PROPERTY = "C34"
 FUNCTIONS = ["paramiko.sftp_si.SFTPServerInterface.canonicalize"]
 STUBS = ["os.path.isabs/normpath: CPython's pure-Python posixpath algorithm (the 3.12 functions are C); "
          "validated against the real functions on every string of length <= 6 over the alphabet at start-up"]
-ASSUMPTIONS = ["POSIX platform (sys.platform != 'win32')", "path characters drawn from {'/', '.', 'a', 'b'}"]
+ASSUMPTIONS = ["POSIX platform (sys.platform != 'win32')", "path characters drawn from {'/', '.', 'a', backslash}"]
 EXPLANATION = "canonicalize() runs on a symbolic str; every character is a solver variable over the alphabet."
-ALPHABET = "/.ab"
+ALPHABET = "/.a\\"       # separators, dots, a name character, and the other platform's separator
 
 
 def canon_case(maxlen):
